@@ -18,7 +18,8 @@ def run(tier, seed):
         res.report = verify(bench_c.targets(), timeout_s=30 if tier == 'quick' else 120)
     except ImportError:
         res.report = None
-    res.bounded = [parse_drv.verilog_part(tier, seed), parse_drv.bench_part(tier, seed)]
+    from vk.common import guarded_parts
+    res.bounded = guarded_parts(res, lambda: parse_drv.verilog_part(tier, seed), lambda: parse_drv.bench_part(tier, seed))
     res.assumptions = ['names and cell types are opaque tokens in the proved step; the cell type is not the reserved fork kind; no cell of the same name exists yet (bench: one assignment per signal)', 'GrowingList.free_index by an assumed contract', 'bounded over netlists / renderings, complete over valuations (enumeration <= 2^10)',
                        'the meaning of a parsed circuit is judged by the spec evaluator (spec.evaln + instance semantics); C01 ties the simulators to it',
                        'datasheet functions of the family cells (spec.datasheet) are the oracle for instances']
